@@ -724,6 +724,8 @@ type fileOpts struct {
 	nfrags  int
 	styp    bool
 	npssh   int // pssh boxes handed to InitProtect (moov)
+	sidx    bool // a sidx box between styp and the first moof (one reference covering the fragments)
+	optTrun bool // the clear fragments were written with OptimizeTrun (sample defaults in tfhd)
 	baseVar int // 0: default-base-is-moof + trun data offset; 1: tfhd base_data_offset = moof start; 2: tfhd base_data_offset = mdat payload, trun without data offset
 }
 
@@ -734,11 +736,22 @@ func (e *env) buildClearFile(codec byte, scheme string, fo fileOpts, r *hx.Rng) 
 	trackID := initF.Init.Moov.Trak.Tkhd.TrackID
 	var buf bytes.Buffer
 	must(initF.Init.Encode(&buf))
-	if fo.styp {
+	if fo.styp && !fo.sidx {
 		styp := mp4.NewStyp("msdh", 0, []string{"msdh", "msix"})
 		must(styp.Encode(&buf))
 	}
 	var all [][][]byte
+	head := &buf
+	var fragBuf bytes.Buffer
+	if fo.sidx {
+		// fragments go to a side buffer first: the sidx needs their total size
+		buf = bytes.Buffer{}
+		head = &bytes.Buffer{}
+		must(initF.Init.Encode(head))
+		styp := mp4.NewStyp("msdh", 0, []string{"msdh", "msix"})
+		must(styp.Encode(head))
+	}
+	_ = fragBuf
 	for k := 0; k < fo.nfrags; k++ {
 		ns := r.Pick(1, 2, 3, 5)
 		var samples [][]byte
@@ -767,7 +780,17 @@ func (e *env) buildClearFile(codec byte, scheme string, fo fileOpts, r *hx.Rng) 
 			frag.Moof.Traf.Trun.Flags &^= mp4.TrunDataOffsetPresentFlag
 			tfhd.BaseDataOffset = pos + frag.Moof.Size() + 8
 		}
+		if fo.optTrun {
+			frag.EncOptimize = mp4.OptimizeTrun
+		}
 		must(frag.Encode(&buf))
+	}
+	if fo.sidx {
+		sidx := &mp4.SidxBox{ReferenceID: trackID, Timescale: 90000, EarliestPresentationTime: 90000,
+			SidxRefs: []mp4.SidxRef{{ReferencedSize: uint32(buf.Len()), SubSegmentDuration: 5000, StartsWithSAP: 1, SAPType: 1}}}
+		must(sidx.Encode(head))
+		head.Write(buf.Bytes())
+		return head.Bytes(), all
 	}
 	return buf.Bytes(), all
 }
@@ -834,7 +857,10 @@ func searchFiles(e *env, r *hx.Rng, n int) {
 		fo := fileOpts{nfrags: r.Pick(1, 2, 3, 4), styp: r.Bool(), npssh: r.Pick(0, 0, 1, 2)}
 		if i%5 == 4 {
 			fo.baseVar = r.Pick(1, 2)
+		} else if i%7 == 3 {
+			fo.sidx = true
 		}
+		fo.optTrun = i%3 == 1 && fo.baseVar == 0
 		clearRaw, samples := e.buildClearFile(codec, scheme, fo, r)
 		iv := genIV(r, r.Pick(8, 16))
 		key := r.Bytes(16, nil)
@@ -860,6 +886,9 @@ func searchFiles(e *env, r *hx.Rng, n int) {
 		cls := "file"
 		if fo.baseVar != 0 {
 			cls = "file-tfhd-base-data-offset"
+		}
+		if fo.sidx {
+			cls = "file-sidx"
 		}
 		if stage != "ok" {
 			if fo.baseVar != 0 {
